@@ -658,6 +658,9 @@ func opcodeCheckLockTimeVerify(op *ParsedOpcode, t *thread) error {
 	// which the transaction is finalised or a timestamp depending on if the
 	// value is before the interpreter.LockTimeThreshold.  When it is under the
 	// threshold it is a block height.
+	if t.tx == nil {
+		return errs.NewError(errs.ErrInvalidParams, "tx must be supplied for checklocktimeverify")
+	}
 	if err = verifyLockTime(int64(t.tx.LockTime), LockTimeThreshold, lockTime.Int64()); err != nil {
 		return err
 	}
